@@ -53,16 +53,21 @@ def o_split(inp):
     timed, dur = rel_timed(rel)
     if wf_violations(timed):
         return [("~skip:ill-formed", "")]
-    s = P.seq_of_rel(rel)
-    before_rel = [from_real(m) for m in s.rel._messages]
+    state = inp.get("state", "rel")
+    s = P.seq_in_state(rel, state)
+    if state == "rel":
+        before_rel = [from_real(m) for m in s.rel._messages]
     try:
         pieces = s.split(list(caps))
     except Exception as e:
         return [("raises", f"{type(e).__name__}: {e}")]
     fails = []
-    after_rel = [from_real(m) for m in s.rel._messages]
-    if before_rel != after_rel or before_rel != rel:
-        fails.append(("pure", "the source's relative view changed"))
+    if state == "rel":
+        after_rel = [from_real(m) for m in s.rel._messages]
+        if before_rel != after_rel or before_rel != rel:
+            fails.append(("pure", "the source's relative view changed"))
+    elif rel_timed(P.content_of(s)) != (timed, dur):
+        fails.append(("pure", f"the source's content changed (split from wrapper state {state})"))
     prs = [[from_real(m) for m in p.rel._messages] for p in pieces]
     if len(prs) > len(caps) + 1:
         fails.append(("count", f"{len(prs)} pieces for {len(caps)} capacities"))
@@ -138,6 +143,9 @@ def generate(ctx):
         grid = rng.choice([1, 6, 12])
         rel, notes = G.gen_wf_rel(rng, channels=rng.choice([(0,), (0, 1), (0, 1, 2)]), grid=grid, max_tick=120,
                                   n_notes=rng.randint(0, 6), pitches=[60, 61, 62])
+        if rng.random() < 0.3:
+            rel = G.unconsolidate(rng, rel)
+            ctx.count("rel:unconsolidated")
         caps = [rng.choice([1, 6, 12, 24, 24, 48, 96]) for _ in range(rng.randint(0, 4))]
         timed, dur = rel_timed(rel)
         cum, bounds = 0, set()
@@ -154,6 +162,11 @@ def generate(ctx):
         if final_boundary_event(rel, caps):
             ctx.count("final-boundary-event(D8 class)")
         ctx.check("split", {"rel": rel, "caps": caps})
+        if i % 3 == 0:
+            # the same split through the Sequence wrapper in another freshness state (a stale view holds other content)
+            st = rng.choice(P.SEQ_STATES[1:])
+            ctx.count("state:" + st)
+            ctx.check("split", {"rel": rel, "caps": caps, "state": st})
         ctx.corr("split", P.op_split(caps, rel))
         ctx.sample({"rel": rel, "caps": caps})
     # exhaustive small scope: every list of <= 2 (quick) / <= 4 (thorough) messages x six capacity lists; the oracle
